@@ -287,9 +287,11 @@ class MetadataBase(object):
         :type f: file or str
         """
         self.validate()
+        # serialize before opening the destination, nested objects are validated
+        # only when they get serialized and a failure must not truncate the file
+        parser = self._get_parser()
+        self.serialize(parser)
         with open_file_obj(f, "w") as f:
-            parser = self._get_parser()
-            self.serialize(parser)
             self.build_file(parser, f)
 
     def dumps(self):
